@@ -26,6 +26,11 @@ LAYOUTS = {
     'D': [('top', 'MASS', 0, False, 'other'), ('top', 'MASS', 0, False, 'rch'), ('bottom', 'HEAT', 2, False, 'hfl'),
           ('interior', 'MASS', 0, False)],
     'E': [('bottom', 'HEAT', 0, False, 'other'), ('top', 'MASS', 2, False, 'rch'), ('top', 'MASS', 0, False)],
+    # round 4: interior generators ("wells") whose name is not derived from their column: they keep their name unless
+    # rename_generators is set, and are then named category + column of their block
+    'F': [('interior', 'MASS', 0, False, 'wel'), ('interior', 'HEAT', 3, False, 'wlx'), ('top', 'MASS', 0, False),
+          ('bottom', 'HEAT', 0, False), ('interior', 'MASS', 2, True)],
+    'G': [('interior', 'COM1', 0, False, 'wel'), ('top', 'MASS', 0, False, 'rch'), ('interior', 'MASS', 2, False, 'other')],
 }
 
 TOPCAT = [' 1', ' 1t', ' 1', ' 1']
@@ -33,8 +38,10 @@ BOTCAT = ['99', '99b', '99', '99']
 
 
 def generator_plan(conv, layout, colnames, laynames):
-    """[(index, name, block, type, table length, enthalpy?, name follows the block's column?)] for a layout on a
-    geometry with the given column / layer names (layer 0 = atmosphere layer)."""
+    """[(index, name, block, type, table length, enthalpy?, name follows the block's column?, where, name after
+    column-based renaming)] for a layout on a geometry with the given column / layer names (layer 0 = atmosphere layer).
+    The last item is category + column of the generator's BLOCK: the name every top / bottom generator has after a
+    transfer onto an identical geometry, and every other generator when rename_generators is set."""
     out = []
     nlay = len(laynames) - 1
     for gi, item in enumerate(LAYOUTS[layout]):
@@ -47,11 +54,14 @@ def generator_plan(conv, layout, colnames, laynames):
         follows = ncol == col
         if where == 'top':
             blk, nm = own_block_name(conv, laynames[1], col), own_block_name(conv, TOPCAT[conv], ncol)
+            ren = own_block_name(conv, TOPCAT[conv], col)
         elif where == 'bottom':
             blk, nm = own_block_name(conv, laynames[-1], col), own_block_name(conv, BOTCAT[conv], ncol)
+            ren = own_block_name(conv, BOTCAT[conv], col)
         else:
             li = 2 if nlay >= 3 else nlay
             cat = ['w%d' % gi, 'w%dx' % gi, 'w%d' % gi, 'w%d' % gi][conv]
             blk, nm = own_block_name(conv, laynames[li], col), own_block_name(conv, cat, ncol)
-        out.append((gi, nm, blk, typ, ntab, enth, follows))
+            ren = own_block_name(conv, cat, col)
+        out.append((gi, nm, blk, typ, ntab, enth, follows, where, ren))
     return out
